@@ -558,6 +558,41 @@ fn irregular_group_cases() -> Vec<Case> {
     cases
 }
 
+/// Vector data in patterns: a rule with the datum #(1 2) matches that vector and no other, whichever rules stand
+/// before and after it. Every ordered pair of four vector data as the first two rules, a catch-all third, seven uses.
+fn vector_datum_cases() -> Vec<Case> {
+    let data = ["#()", "#(1)", "#(1 2)", "#(1 2 3)"];
+    let uses = ["#()", "#(1)", "#(1 2)", "#(1 2 3)", "#(2)", "#(1 3)", "#(1 2 3 4)"];
+    let mut cases = vec![];
+    // (a dotted pattern around the datum would only re-find the recorded fall-through family C17-F001..)
+    for (wrap_p, wrap_u) in [("V", "V"), ("(a V)", "(7 V)"), ("(V a ...)", "(V 8 9)")] {
+        for v1 in data {
+            for v2 in data {
+                if v1 == v2 {
+                    continue;
+                }
+                let def = format!(
+                    "(define-syntax m (syntax-rules () ((_ {}) 'first) ((_ {}) 'second) ((_ x) 'other)))",
+                    wrap_p.replace('V', v1),
+                    wrap_p.replace('V', v2)
+                );
+                for u in uses {
+                    let usetext = format!("(m {})", wrap_u.replace('V', u));
+                    let want = if u == v1 { "first" } else if u == v2 { "second" } else { "other" };
+                    cases.push(Case {
+                        def: def.clone(),
+                        usetext: usetext.clone(),
+                        expected: Exp::Value(Cell::new_symbol(want)),
+                        class: "vector-datum-in-pattern".into(),
+                        key: format!("{} | {}", def, usetext),
+                    });
+                }
+            }
+        }
+    }
+    cases
+}
+
 fn make_cases(tier: Tier) -> Vec<Case> {
     let (budget, nest, reps) = match tier {
         Tier::Quick => (3u32, 1u32, 2usize),
@@ -645,6 +680,7 @@ fn make_cases(tier: Tier) -> Vec<Case> {
     }
     cases.extend(catch_all_cases());
     cases.extend(irregular_group_cases());
+    cases.extend(vector_datum_cases());
     cases
 }
 
@@ -919,7 +955,7 @@ pub fn run(ctx: &Ctx) -> i32 {
     rep.extra("valid_r7rs_pairs", json!(valid_n));
     rep.extra("single_reruns_after_worker_death", json!(retry.len()));
     rep.rule = format!(
-        "Every pattern shape with at most {} atoms (variable, literal, _, datum), <= 3 elements per list, sub-patterns nested <= {} (quick tier: plus all two-atom shapes nested two deep), an ellipsis on at most one element per list (after a variable or a sub-pattern), an optional dotted tail variable, default and custom ellipsis; for each, every template of: the product of per-variable usages (dropped, v, (v), (v K), (v v), inner-first for depth 2, each with as many ellipses as the variable's depth), reversed order, shared ellipsis, a depth-0 variable inside another variable's ellipsis, dotted tails, vector, nested quote, a variable used in two places, and the R7RS-invalid shapes (too few / too many ellipses, ellipsis after a depth-0 variable); for each, uses with every ellipsis matching 0..{} items and near misses (too short, too long, wrong literal, wrong datum, atom for list, improper); every 7th shape also as the second rule behind a more specific first rule = {} (transformer, use) pairs, run in isolated workers (address-space cap, per-batch watchdog); the catch-all family (the pattern followed by four catch-all rules, small shapes, both ellipsis spellings); irregular groups (four nested-ellipsis patterns (_ (k v ...) ...) and variants x four templates x every sequence of <= 5 group sizes in 0..3); every session of <= 5 (thorough 6) forms over two definitions of one keyword, two procedures that redefine it when they run, their calls, and uses of the macro directly and through eval. Oracle: valid R7RS => a reported error or exactly the reference instantiation; no rule matches => an error; invalid R7RS => any outcome; always: no panic, abort or hang. Non-trivial = a valid pair whose outcome was the reference expansion or the required rejection.",
+        "Every pattern shape with at most {} atoms (variable, literal, _, datum), <= 3 elements per list, sub-patterns nested <= {} (quick tier: plus all two-atom shapes nested two deep), an ellipsis on at most one element per list (after a variable or a sub-pattern), an optional dotted tail variable, default and custom ellipsis; for each, every template of: the product of per-variable usages (dropped, v, (v), (v K), (v v), inner-first for depth 2, each with as many ellipses as the variable's depth), reversed order, shared ellipsis, a depth-0 variable inside another variable's ellipsis, dotted tails, vector, nested quote, a variable used in two places, and the R7RS-invalid shapes (too few / too many ellipses, ellipsis after a depth-0 variable); for each, uses with every ellipsis matching 0..{} items and near misses (too short, too long, wrong literal, wrong datum, atom for list, improper); every 7th shape also as the second rule behind a more specific first rule = {} (transformer, use) pairs, run in isolated workers (address-space cap, per-batch watchdog); the catch-all family (the pattern followed by four catch-all rules, small shapes, both ellipsis spellings); vector data in patterns (every ordered pair of #() #(1) #(1 2) #(1 2 3) as the first two rules before a catch-all, bare, inside a list and before an ellipsis, x seven vectors in prefix relation or not); irregular groups (four nested-ellipsis patterns (_ (k v ...) ...) and variants x four templates x every sequence of <= 5 group sizes in 0..3); every session of <= 5 (thorough 6) forms over two definitions of one keyword, two procedures that redefine it when they run, their calls, and uses of the macro directly and through eval. Oracle: valid R7RS => a reported error or exactly the reference instantiation; no rule matches => an error; invalid R7RS => any outcome; always: no panic, abort or hang. Non-trivial = a valid pair whose outcome was the reference expansion or the required rejection.",
         match ctx.tier { Tier::Quick => 3, Tier::Thorough => 4 },
         match ctx.tier { Tier::Quick => 2, Tier::Thorough => 3 },
         match ctx.tier { Tier::Quick => 2, Tier::Thorough => 3 },
